@@ -100,6 +100,13 @@ def handle (st : St) (line : String) : St × String :=
       let posts := r.2.1.map showPost
       ({ st with recv := r.1 },
        s!"down={showBool r.1.down} sent={showBool r.1.shutdownSent} | {if posts.isEmpty then "-" else ";".intercalate posts} | wrote={showBool r.2.2}")
+  | ["recv-shut"] =>
+    -- the main thread calls `WorkerController.shutdown()` between two messages (workermanage.py:375-381, idempotent)
+    let s := st.recv
+    if s.down || s.shutdownSent then
+      (st, s!"down={showBool s.down} sent={showBool s.shutdownSent} | - | wrote={showBool false}")
+    else
+      ({ st with recv := { s with shutdownSent := true } }, s!"down={showBool s.down} sent={showBool true} | - | wrote={showBool true}")
   | ["init", mode, nn, msc, maxfail, restart] =>
     match nn.toNat?, maxfail.toNat? with
     | some k, some mf =>
